@@ -235,6 +235,62 @@ def build(shape, size, rng):
             return out
 
         return font, samples
+    if shape == "multiple":
+        # MultipleSubst: n glyphs each replaced by its own sequence of `ln` glyphs (splitMultipleSubst)
+        n, ln = size
+        font, names = make_font(1 + n + 64)
+        gm = font.getReverseGlyphMap()
+        # (the first three members spell i in base 64: every sequence is distinct, nothing can be shared)
+        tgt = lambda i: [1 + n + ((i // 64**j) % 64 if j < 3 else (i * 7 + j * 13) % 64) for j in range(ln)]  # noqa: E731
+        mapping = {names[1 + i]: [names[t] for t in tgt(i)] for i in range(n)}
+        st = B.buildMultipleSubstSubtable(mapping)
+        assemble(font, "GSUB", [B.buildLookup([st])], "ccmp")
+
+        def samples(r, kk=160):
+            out = []
+            for _ in range(kk):
+                i = r.randrange(n)
+                out.append(([1 + i], ("glyphs", tgt(i))))
+            return out
+
+        return font, samples
+    if shape == "alternate":
+        # AlternateSubst: n glyphs with `k` alternates each; the feature value selects one (splitAlternateSubst)
+        n, k = size
+        font, names = make_font(1 + n + 97)
+        gm = font.getReverseGlyphMap()
+        alt = lambda i, j: 1 + n + ((i // 97**j) % 97 if j < 2 else (i * 11 + j * 5) % 97)  # noqa: E731
+        mapping = {names[1 + i]: [names[alt(i, j)] for j in range(k)] for i in range(n)}
+        st = B.buildAlternateSubstSubtable(mapping)
+        assemble(font, "GSUB", [B.buildLookup([st])], "salt")
+
+        def samples(r, kk=160):
+            out = []
+            for _ in range(kk):
+                i, j = r.randrange(n), r.randrange(k)
+                out.append(([1 + i], ("glyphs", [alt(i, j)]), {"salt": j + 1}))
+            return out
+
+        return font, samples
+    if shape == "singlepos":
+        # SinglePos format 2: one full value record per glyph (splitSinglePos)
+        n = size
+        font, names = make_font(1 + n)
+        gm = font.getReverseGlyphMap()
+        rec = lambda i: {"XPlacement": (i * 3) % 211 - 100, "YPlacement": (i * 5) % 157 - 70, "XAdvance": (i * 7) % 401 - 200, "YAdvance": 0}  # noqa: E731
+        mapping = {names[1 + i]: B.buildValue({k_: v for k_, v in rec(i).items()}) for i in range(n)}
+        sts = B.buildSinglePos(mapping, gm)
+        assemble(font, "GPOS", [B.buildLookup(sts)], "kern")
+
+        def samples(r, kk=160):
+            out = []
+            for _ in range(kk):
+                i = r.randrange(n)
+                v = rec(i)
+                out.append(([1 + i, 0], ("pos0", (ADV + v["XAdvance"], v["XPlacement"], v["YPlacement"]))))
+            return out
+
+        return font, samples
     if shape == "markbase":
         nb, nc = size
         font, names = make_font(1 + nb + nc)
@@ -347,13 +403,17 @@ def execute(ctx, h):
         except Exception as e:
             c06._fail(res, "harfbuzz-rejects-output", "%s: %s" % (type(e).__name__, e) + where)
             return res
-        feats = {"kern": True, "liga": True, "mark": True, "calt": True}
+        feats = {"kern": True, "liga": True, "mark": True, "calt": True, "ccmp": True}
         bad = None
         nchecked = 0
-        for seq, (kind, want) in samples(prng.sub("samples", h["sseed"])):
-            got = oshape.shape(hbfont, seq, "DFLT", "dflt", feats)
+        for smp in samples(prng.sub("samples", h["sseed"])):
+            seq, (kind, want) = smp[0], smp[1]
+            got = oshape.shape(hbfont, seq, "DFLT", "dflt", dict(feats, **smp[2]) if len(smp) > 2 else feats)
             nchecked += 1
-            if kind == "adv0":
+            if kind == "pos0":
+                ok = (got[0][2], got[0][4], got[0][5]) == want and [g for g, *_ in got] == seq
+                shown = (got[0][2], got[0][4], got[0][5])
+            elif kind == "adv0":
                 ok = got[0][2] == want and [g for g, *_ in got] == seq
                 shown = got[0][2]
             elif kind == "glyphs":
